@@ -58,6 +58,9 @@ var twoD = map[string]bool{"matrixmultiplication": true, "matrixtranspose": true
 func (m *Matrix) C02pCases(thorough bool) (cases []Case, refs []int) {
 	for i := range m.Workloads {
 		e := &m.Workloads[i]
+		if e.EmuOnly {
+			continue
+		}
 		var sizes []Size
 		for _, s := range e.Sizes {
 			if len(sizes) == 0 || ((thorough || twoD[e.Name]) && s.Quick && len(sizes) < 2 && s.Name != sizes[0].Name) {
